@@ -330,13 +330,54 @@ def run_gprog_case(ctx, rng, idx):
             fam = "undefined" if "not defined" in title.lower() else \
                 ("conflict" if "different types" in title.lower() else None)
             if fam:
-                return {"status": "violated", "fp": "gprog", "mech": f"C08:false-reject:{fam}:valid-by-construction",
+                mech = f"C08:false-reject:{fam}:valid-by-construction"
+                if fam == "undefined" and _accepted_without_statements_after_jumps(ctx, text, name):
+                    # classified by intervention, not by shape: deleting the statements that directly
+                    # follow a return/break/continue in their block (unreachable under any reading)
+                    # makes the rejection disappear
+                    mech = "C08:false-reject:undefined:unreachable-statements-after-a-jump-feed-a-use-in-constant-dead-code"
+                return {"status": "violated", "fp": "gprog", "mech": mech,
                         "witness": {"text": text, "function": name, "error": ctx.render(e)[:1500]},
                         "counters": counters}
     kinds = set(prog.kinds())
     return {"status": "held", "fp": ("gp:" + prog.fingerprint()) if prog.nontrivial() else None,
             "counters": counters,
             "sets": {"observed": ["accept"], "gprog_kinds": sorted(kinds & {"dead", "while", "for_range", "nested", "if"})}}
+
+
+def _strip_after_jumps(text):
+    import ast
+
+    class T(ast.NodeTransformer):
+        def generic_visit(self, node):
+            super().generic_visit(node)
+            for f in ("body", "orelse", "finalbody"):
+                b = getattr(node, f, None)
+                if isinstance(b, list):
+                    for i, st in enumerate(b):
+                        if isinstance(st, (ast.Return, ast.Break, ast.Continue)):
+                            del b[i + 1:]
+                            break
+            return node
+
+    tree = T().visit(ast.parse(text))
+    return ast.unparse(ast.fix_missing_locations(tree)) + "\n"
+
+
+def _accepted_without_statements_after_jumps(ctx, text, name):
+    from vf import ctx as C
+
+    try:
+        stripped = _strip_after_jumps(text)
+        if stripped.strip() == text.strip():
+            return False
+        ld = ctx.load(stripped, "nodead")
+        getattr(ld.module, name).check()
+        return True
+    except BaseException as e:
+        if C.raised_in_harness(e) or type(e).__name__ == "CaseTimeout":
+            raise
+        return False
 
 
 COMPTIME_PROBE = '''from guppylang import guppy
@@ -392,7 +433,20 @@ def run_case(ctx, rng, idx, params, tier):
 
 def replay(ctx, w):
     if 'ir' not in w:
-        return {'status': 'held', 'note': 're-run the check; witness text attached'}
+        if "text" not in w or "function" not in w:
+            return {'status': 'held', 'note': 're-run the check; witness text attached'}
+        from vf import ctx as C
+
+        ld = ctx.load(w["text"], "replay")
+        try:
+            getattr(ld.module, w["function"]).check()
+            return {"status": "held", "observed": "accept"}
+        except BaseException as e:
+            if C.raised_in_harness(e):
+                raise
+            return {"status": "violated", "observed": type(getattr(e, "error", e)).__name__,
+                    "accepted_without_statements_after_jumps":
+                        _accepted_without_statements_after_jumps(ctx, w["text"], w["function"])}
     import ast as _ast
 
     body = _ast.literal_eval(w["ir"])
